@@ -51,7 +51,9 @@ NODE_NAMES = ["Module", "Expr", "Assign", "AugAssign", "AnnAssign", "For", "Whil
               "UnaryOp", "List", "Dict", "Tuple", "Set", "Subscript", "Slice", "Import", "ImportFrom", "alias",
               "Lambda", "IfExp", "ListComp", "comprehension", "JoinedStr", "FormattedValue", "Try", "ExceptHandler",
               "With", "withitem", "Pass", "Break", "Continue", "Global", "Assert", "Delete", "arguments", "arg",
-              "keyword", "Load", "Store", "Add", "Lt", "And", "Not", "USub", "Starred", "NameConstant", "Nope"]
+              "keyword", "Load", "Store", "Add", "Lt", "And", "Not", "USub", "Starred", "Nope"]
+# (the pre-3.8 names NameConstant / Bytes / Ellipsis are left out: ast.NodeVisitor itself redirects Constant nodes
+#  to visit_NameConstant & co. as a deprecated compatibility shim, which is CPython's behaviour, not pedal's)
 
 LITERAL_TYPES = [bool, str, int, float, list, dict]
 
@@ -542,4 +544,6 @@ def real_check(q, which, threshold):
 def thresholds_for(count, rng, full):
     base = {0, 1, 2, 3, 4} if full else {0, 1}
     base |= {max(0, count - 1), count, count + 1}
+    if not full and len(base) > 3:
+        base.discard(0 if count > 1 else -1)
     return sorted(base)
